@@ -92,7 +92,7 @@ func workloads() []workload {
 			}
 			var out []string
 			err = batch.Authorize(context.Background(), ps, ents, batch.Request{Principal: batch.Variable("p"), Action: req.Action, Resource: batch.Variable("r"),
-				Context: types.NewRecord(types.RecordMap{"a": batch.Variable("x"), "b": types.String("x"), "s": types.NewSet(batch.Variable("x"), types.Long(2), types.Long(3))}),
+				Context:   types.NewRecord(types.RecordMap{"a": batch.Variable("x"), "b": types.String("x"), "s": types.NewSet(batch.Variable("x"), types.Long(2), types.Long(3))}),
 				Variables: batch.Variables{"p": {types.NewEntityUID("U", "alice"), types.NewEntityUID("U", "bob")}, "r": {types.NewEntityUID("G", "g1")}, "x": {types.Long(1), types.Long(2)}}},
 				func(r batch.Result) error {
 					var vs []string
